@@ -274,6 +274,11 @@ fn main() {
     if let Some(p) = &args.replay {
         let v: Value = serde_json::from_str(&std::fs::read_to_string(p).expect("replay file")).unwrap();
         let d = v["detail"].clone();
+        if d["stream"].as_str() == Some("npo") {
+            let exe = std::env::current_exe().unwrap().with_file_name("c04npo");
+            let st = std::process::Command::new(exe).arg("--replay").arg(p).arg("--honest-only").status().expect("run c04npo");
+            std::process::exit(st.code().unwrap_or(2));
+        }
         let name = d["setup"].as_str().unwrap().to_string();
         let rs = with_setup!(name.as_str(), replay, &d);
         rep.add_all(rs);
@@ -291,5 +296,10 @@ fn main() {
         }
     });
     rep.add_all(rs);
+    // second stream: honest executions of row programs over the Poseidon permutation tables (Merkle
+    // chains, index-accumulator exposure, tables of exactly 2^k rows) from the sibling binary c04npo:
+    // an accepted honest proof shows the bus balanced; an unprovable one is handed to upstream's
+    // lookup debugger
+    rep.add_all(import_emitted("c04npo", "C09", &args, |r| r.key.starts_with("C09:")));
     rep.finish(args.tier.pick(1000, 30_000));
 }
